@@ -487,6 +487,7 @@ def enum_cases(cls):
         "rollup_after_mysql_rollup": (lambda: Q.from_(t).select(t.a).groupby(t.a).rollup(vendor="mysql"), lambda q: q.rollup(t.b)),
         "columns_after_as_select": (lambda: Q.create_table("x").as_select(Q.from_(t).select(t.a)), lambda q: q.columns("a")),
         "as_select_after_columns": (lambda: Q.create_table("x").columns("a"), lambda q: q.as_select(Q.from_(t).select(t.a))),
+        "as_select_twice": (lambda: Q.create_table("x").as_select(Q.from_(t).select(t.a)), lambda q: q.as_select(Q.from_(u).select(u.b))),
         "insert_without_into": (lambda: Q.from_(t), lambda q: q.insert(1)),
         # the MySQL LOAD DATA builder has the same one-shot calls (reached through MySQLQuery whatever the class under test)
         "load_into": (lambda: P.MySQLQuery.load("f").into("a"), lambda q: q.into("b")),
